@@ -78,7 +78,7 @@ package oxia
 // hierarchical key order — the order each shard returns its own results in.
 //
 //@ func ResultHeap.Less(h, i, j) (res)
-//@ property C20
+//@ property C20 C11
 //@ requires 0 <= i && i < len(h) && 0 <= j && j < len(h) && h[i] != nil && h[j] != nil
 //@ ensures res <==> compare.CompareWithSlash(bytes(h[i].gr.Key), bytes(h[j].gr.Key)) < 0
 //@ modifies nothing
@@ -119,3 +119,15 @@ package oxia
 //@ loop 1 modifies fresh
 //@ ensures ghost(closed, ch) == 1
 //@ modifies ghost(closed, ch)
+
+// ---------------------------------------------------------------- sequence updates subscriber (C16)
+
+// The subscription is opened on the shard that owns the partition key (the shard the
+// client routes the sequential puts of that partition key to), for exactly the prefix
+// asked for.
+//
+//@ func sequenceUpdates.getSequenceUpdates(su) (err)
+//@ property C16 C18
+//@ requires su.shardManager != nil && su.clientPool != nil && su.backoff != nil && su.ctx != nil
+//@ assert at call GetSequenceUpdates#0: in != nil && in.Key == su.prefixKey && in.Shard == callres_Get_0
+//@ modifies *
